@@ -133,7 +133,7 @@ fn main() {
     sink.merge(struct_sweep(&run, &[&SCT], &wrapped(&cat::scts(false), 1), 0, &sfx, 16, &extra));
     sink.merge(struct_sweep(&run, &[&SCT_LIST], &wrapped(&cat::sct_lists(false), 1), 0, &sfx, 16, &extra));
     sink.merge(struct_sweep(&run, &[&SCT_LIST], &cat::sct_lists_many(), run.tier.pick(0, 1), &sfx, 32, &extra));
-    for style in [1u8, 3, 4, 6, 7, 8, 10, 11, 12, 13, 14, 15, 16, 17, 18, 19] {
+    for style in [1u8, 3, 4, 6, 7, 8, 10, 11, 12, 13, 14, 15, 16, 17, 18, 19, 20, 21] {
         use vcommon::en::with_fill_style as wfs;
         sink.merge(struct_sweep(&run, &[&SCT], &wfs(style, || cat::scts(false)), 0, &sfx, 96, &extra));
         sink.merge(struct_sweep(&run, &[&SCT_LIST], &wfs(style, || cat::sct_lists(false)), 0, &sfx, 96, &extra));
